@@ -36,6 +36,23 @@ CLAIMED = {
              "another); zero-terminated kinds cannot carry NUL. Arduino/flash kinds are the repository's fakes.",
         technique="TLA+ spec + TLC generation, replay per string-kind schedule",
     ),
+    "C06": dict(
+        category="model_checking",
+        text="SlotPool.tla (pools, free list, ref-counted string nodes with the code's pool-table arithmetic) is "
+             "model-checked over a geometry matrix with and without allocation failure (Accounting, NoWrap, FreshId, "
+             "Reuse, PoolOnlyWhenFull, RefCount). Executions of the library on instrumented allocators are recorded "
+             "(guarded hook event per SlotPool action, every allocator call, inspector snapshot, public call) and "
+             "validated by TLC against SlotPoolTrace.tla: every hook event is an enabled action; every block is "
+             "allocated once and released once through the allocator that produced it; no allocator/pool/string "
+             "event outside a mutating public call; after each call the live blocks of each allocator are exactly "
+             "the pools, tables and strings of the documents using it (clear, destruction, move, swap, assignment); "
+             "equal copied strings stored once with refs = users; slots in use = reachable slots.",
+        design_ref="DESIGN.md §2.3, §4 C06",
+        note="Fault-free executions only (C05 covers failures). The deserialization memory bound is checked in "
+             "C03's reader harness, not here. Trusted: hooks emit at the right points (demonstrated by mutation), "
+             "VerifAllocator, ASan for use-after-release.",
+        technique="TLA+ spec + TLC model checking per geometry; trace validation of hook/allocator events",
+    ),
 }
 
 NOT_YET = {
